@@ -174,6 +174,7 @@ class Symex:
         self._modconst = {}
         self.fresh_n = 0
         self.on_start = None
+        self.oracle = None          # callable(sx, atom) -> bool | None: decides atoms over the scenario's value domain
 
     # ------------------------------------------------------------------ driving
     def run(self, ref, make_args, self_obj=None):
@@ -280,6 +281,10 @@ class Symex:
             pol = False
         if c in self.facts:
             d = self.facts[c]
+        elif self.oracle is not None and (d := self.oracle(self, c)) is not None:
+            # the scenario's value domain decides the atom (no fork)
+            d = bool(d)
+            self.facts[c] = d
         else:
             k = len(self.decisions)
             d = self.prefix[k] if k < len(self.prefix) else True
